@@ -217,9 +217,24 @@ struct D
 	// assign a random scalar to *var / *mv through one of the API forms
 	void scalar(Var* var, Val* mv, const std::string& where)
 	{
-		int w = c.rng.below(14);
+		int w = c.rng.below(15);
 		Val r;
 		switch (w) {
+		case 14: {  // long / unsigned long: 64-bit on this platform, every value must come back (small ones as INT like int/unsigned)
+			static const long SB[] = {0L, -1L, 2147483647L, 2147483648L, -2147483648L, -2147483649L, 4294967296L, 5000000000L, -5000000000L, 9007199254740992L};
+			if (c.rng.chance(0.5)) {
+				long x = c.rng.chance(0.5) ? SB[c.rng.below(10)] : (long)c.rng.range(-1000, 1000);
+				c.op(vf::fmt("%s=long %ld", where.c_str(), x));
+				if (c.rng.chance(0.5)) *var = x; else *var = Var(x);
+				r.t = x >= -2147483647L - 1 && x <= 2147483647L ? M_INT : M_NUMBER; r.d = (double)x;
+			} else {
+				unsigned long x = c.rng.chance(0.5) ? (unsigned long)(SB[c.rng.below(10)] < 0 ? 3000000000L : SB[c.rng.below(10)] < 0 ? 7 : 0) + (unsigned long)c.rng.below(3) * 2147483647UL + (c.rng.chance(0.3) ? 6000000000UL : 0UL) : (unsigned long)c.rng.below(1000);
+				c.op(vf::fmt("%s=unsigned long %lu", where.c_str(), x));
+				if (c.rng.chance(0.5)) *var = x; else *var = Var(x);
+				r.t = x <= 2147483647UL ? M_INT : M_NUMBER; r.d = (double)x;
+			}
+			break;
+		}
 		case 0: { int x = c.rng.chance(0.2) ? (c.rng.chance(0.5) ? INT_MIN : INT_MAX) : c.rng.range(-1000, 1000); c.op(vf::fmt("%s=int %d", where.c_str(), x)); if (c.rng.chance(0.5)) *var = x; else *var = Var(x); r.t = M_INT; r.d = x; break; }
 		case 1: { static const unsigned UB[] = {0u, 1u, 2147483646u, 2147483647u, 2147483648u, 2147483649u, 4294967294u, 4294967295u};
 		          unsigned x = c.rng.chance(0.35) ? UB[c.rng.below(8)] : c.rng.chance(0.5) ? (unsigned)c.rng.below(1000) : 2147483648u + c.rng.below(1000000); c.op(vf::fmt("%s=unsigned %u", where.c_str(), x)); if (c.rng.chance(0.5)) *var = x; else *var = Var(x); r.t = x < 2147483648u ? M_INT : M_NUMBER; r.d = x; break; }
